@@ -91,7 +91,7 @@ func (ai *MonteCarloAI) cornerMove(p *tak.Position) tak.Move {
 		}
 		return tak.Move{
 			X:    int8(row),
-			Y:    int8(row),
+			Y:    int8(col),
 			Type: tak.PlaceFlat,
 		}
 	}
